@@ -141,6 +141,17 @@ int N2kUCS2ToUTF8(const unsigned char *str, int strLen, char* buf, int bufLen, u
 }
 
 //*****************************************************************************
+// Returns the number of bytes, which belong to the UTF8 character starting at
+// UTF8Chars: the lead byte and at most charLen-1 continuation bytes following it.
+// The result is less than charLen, if the character has been cut e.g., by the
+// string terminator.
+static size_t N2kUTF8CharBytes(const unsigned char *UTF8Chars, size_t charLen) {
+  size_t bytes=1;
+  while ( bytes<charLen && (UTF8Chars[bytes] & 0xC0)==0x80 ) bytes++;
+  return bytes;
+}
+
+//*****************************************************************************
 int N2kUTF8ToUCS2(const char *str, unsigned char *buf, int bufLen) {
   int Len=0;
   const unsigned char* UTF8Chars=(const unsigned char *)str;
@@ -155,38 +166,38 @@ int N2kUTF8ToUCS2(const char *str, unsigned char *buf, int bufLen) {
       usedBytes=1; 
     } else if ( (*UTF8Chars & 0xE0) == 0xC0 ) {
       // 2 byte
-      ucs2Char=(UTF8Chars[0] & 0x1F) << 6 | (UTF8Chars[1] & 0x3F);
+      usedBytes=N2kUTF8CharBytes(UTF8Chars,2);
+      ucs2Char=( usedBytes==2 ? (UTF8Chars[0] & 0x1F) << 6 | (UTF8Chars[1] & 0x3F) : '?' ); // '?' for cut character
       *buf=ucs2Char;
       buf++; 
       *buf=ucs2Char>>8;
       buf++;
-      usedBytes=2; 
     } else if ( (UTF8Chars[0] & 0xF0) == 0xE0 ) {
       // 3 byte
-      ucs2Char = (UTF8Chars[0] & 0x0F) << 12 | (UTF8Chars[1] & 0x3F) << 6 | (UTF8Chars[2] & 0x3F);
+      usedBytes=N2kUTF8CharBytes(UTF8Chars,3);
+      ucs2Char=( usedBytes==3 ? (UTF8Chars[0] & 0x0F) << 12 | (UTF8Chars[1] & 0x3F) << 6 | (UTF8Chars[2] & 0x3F) : '?' ); // '?' for cut character
       *buf=ucs2Char;
       buf++; 
       *buf=ucs2Char>>8;
       buf++;
-      usedBytes=3; 
     } else if ( (UTF8Chars[0] & 0xF8) == 0xF0 ) {
       *buf='?';
       buf++;
       *buf=0x00;
       buf++;
-      usedBytes=4; 
+      usedBytes=N2kUTF8CharBytes(UTF8Chars,4);
     } else if ( (UTF8Chars[0] & 0xFC) == 0xF8 ) {
       *buf='?';
       buf++;
       *buf=0x00;
       buf++;
-      usedBytes=5; 
+      usedBytes=N2kUTF8CharBytes(UTF8Chars,5);
     } else if ( (UTF8Chars[0] & 0xFE) == 0xFC ) {
       *buf='?';
       buf++;
       *buf=0x00;
       buf++;
-      usedBytes=6; 
+      usedBytes=N2kUTF8CharBytes(UTF8Chars,6);
     }
   }
 
@@ -207,24 +218,24 @@ int N2kUTF8ToASCII(const char *str, unsigned char *buf, int bufLen) {
       // 2 byte
       *buf='?';
       buf++;
-      usedBytes=2; 
+      usedBytes=N2kUTF8CharBytes(UTF8Chars,2);
     } else if ( (UTF8Chars[0] & 0xF0) == 0xE0 ) {
       // 3 byte
       *buf='?';
       buf++;
-      usedBytes=3; 
+      usedBytes=N2kUTF8CharBytes(UTF8Chars,3);
     } else if ( (UTF8Chars[0] & 0xF8) == 0xF0 ) {
       *buf='?';
       buf++;
-      usedBytes=4; 
+      usedBytes=N2kUTF8CharBytes(UTF8Chars,4);
     } else if ( (UTF8Chars[0] & 0xFC) == 0xF8 ) {
       *buf='?';
       buf++;
-      usedBytes=5; 
+      usedBytes=N2kUTF8CharBytes(UTF8Chars,5);
     } else if ( (UTF8Chars[0] & 0xFE) == 0xFC ) {
       *buf='?';
       buf++;
-      usedBytes=6; 
+      usedBytes=N2kUTF8CharBytes(UTF8Chars,6);
     }
   }
 
